@@ -485,6 +485,7 @@ pub fn c11_case(case: &SearchCase, kmax: u64, st: &mut Stats) -> CaseResult {
         }
     }
     // (iii) mate announcements
+    let mut solver = Solver::with_memo(3_000_000);
     for (j, i) in infos.iter().enumerate() {
         if let Score::Mate(n) = i.score {
             st.label("mate_claims");
@@ -495,11 +496,17 @@ pub fn c11_case(case: &SearchCase, kmax: u64, st: &mut Stats) -> CaseResult {
             if n < 0 && !completed_depth_final {
                 continue; // an intermediate line scores the first root moves tried, not the position
             }
-            if n.abs() > 3 {
+            // claims up to 3 moves are always judged; up to 5 when few men are left (memoised solver,
+            // shared by all lines of this case), beyond that: unjudged
+            let men = p.sq.iter().filter(|x| x.is_some()).count();
+            if n.abs() > 5 || (n.abs() > 3 && men > 7) {
                 st.unjudged += 1;
                 continue;
             }
-            let mut solver = Solver::new(3_000_000);
+            if n.abs() > 3 {
+                st.label("mate_claims_of_4_or_5_moves_judged");
+            }
+            solver.budget = if n.abs() > 3 { 600_000 } else { 3_000_000 };
             let verdict = if n > 0 { solver.mate_in(p, n as u32) } else { solver.mated_in(p, (-n) as u32) };
             match verdict {
                 None => st.unjudged += 1,
@@ -839,6 +846,97 @@ pub fn find_cross_check(seed: u64, tries: u32) -> Option<Pos> {
     None
 }
 
+/// Directed search for roots at which null-move pruning is unsound: the defender S (bare king, or
+/// king and a blocked pawn) has exactly one move that holds out longer than two moves, and the
+/// position after it is a bounded reciprocal zugzwang - the attacker to move cannot mate within two
+/// moves, but if the attacker could pass, S would be mated within two. A null-move probe at that node
+/// "proves" the short mate, so a search that trusts such a probe can announce a mate that is too short. (This family is dense in tempo / zugzwang play; the exact horizon coincidence that the seeded change C11E needs - sibling mate length equal to the iteration depth - is NOT constructed, see DESIGN §11.2.)
+pub fn zugzwang_root_stage(x: &mut u64) -> Result<Pos, u8> {
+    let mut next = |n: u64| -> u64 {
+        *x = x.wrapping_mul(6364136223846793005).wrapping_add(1442695040888963407);
+        ((*x >> 33) * n) >> 31
+    };
+    let s_white = next(2) == 0;
+    let (sc, oc) = if s_white { (Color::White, Color::Black) } else { (Color::Black, Color::White) };
+    let mut z = Pos::empty();
+    // S king in the corner region, O king within three squares of it
+    // S king within two squares of a corner, O king within three squares of it
+    let corner = [(0i64, 0i64), (0, 7), (7, 0), (7, 7)][next(4) as usize];
+    let sk = ((corner.0 + if corner.0 == 0 { next(3) as i64 } else { -(next(3) as i64) }), (corner.1 + if corner.1 == 0 { next(3) as i64 } else { -(next(3) as i64) }));
+    let sk_sq = (sk.0 * 8 + sk.1) as u8;
+    z.sq[sk_sq as usize] = Some((sc, Kind::King));
+    let ok = ((sk.0 + next(7) as i64 - 3).clamp(0, 7), (sk.1 + next(7) as i64 - 3).clamp(0, 7));
+    let ok_sq = (ok.0 * 8 + ok.1) as u8;
+    if z.sq[ok_sq as usize].is_some() {
+        return Err(1);
+    }
+    z.sq[ok_sq as usize] = Some((oc, Kind::King));
+    let sets: [&[Kind]; 6] = [&[Kind::Rook], &[Kind::Queen], &[Kind::Rook, Kind::Rook], &[Kind::Rook, Kind::Bishop], &[Kind::Rook, Kind::Knight], &[Kind::Bishop, Kind::Bishop]];
+    for &k in sets[next(6) as usize] {
+        let s = next(64) as usize;
+        if z.sq[s].is_none() {
+            z.sq[s] = Some((oc, k));
+        }
+    }
+    z.stm = oc;
+    if !z.is_legal_position() {
+        return Err(2);
+    }
+    // (a) the attacker to move has no mate within two moves
+    let mut solver = Solver::new(200_000);
+    if solver.mate_in(&z, 2) != Some(false) {
+        return Err(3);
+    }
+    // (b) with the defender to move instead (the attacker "passes") the defender is mated within two
+    let mut zp = z.clone();
+    zp.stm = sc;
+    if !zp.is_legal_position() || zp.legal_moves().is_empty() || solver.mated_in(&zp, 2) != Some(true) {
+        return Err(4);
+    }
+    // root: the S king came from a neighbouring square
+    let mut origins = vec![];
+    for dr in -1i64..=1 {
+        for df in -1i64..=1 {
+            let (r, f) = (sk.0 + dr, sk.1 + df);
+            if (dr, df) != (0, 0) && (0..8).contains(&r) && (0..8).contains(&f) && z.sq[(r * 8 + f) as usize].is_none() {
+                origins.push((r * 8 + f) as u8);
+            }
+        }
+    }
+    if origins.is_empty() {
+        return Err(5);
+    }
+    let from = origins[next(origins.len() as u64) as usize];
+    let mut root = z.clone();
+    root.sq[sk_sq as usize] = None;
+    root.sq[from as usize] = Some((sc, Kind::King));
+    root.stm = sc;
+    if !root.is_legal_position() {
+        return Err(6);
+    }
+    // (c) every other move of S is mated within two; the root itself is not (the one move holds out longer)
+    let legal = root.legal_moves();
+    if legal.len() < 2 || !legal.iter().any(|m| m.to == sk_sq) {
+        return Err(7);
+    }
+    for m in &legal {
+        if m.to != sk_sq && solver.mate_in(&root.apply(m), 2) != Some(true) {
+            return Err(8);
+        }
+    }
+    if Solver::new(2_000_000).mated_in(&root, 2) != Some(false) {
+        return Err(9);
+    }
+    Ok(root)
+}
+pub fn zugzwang_root_candidate(x: &mut u64) -> Option<Pos> {
+    zugzwang_root_stage(x).ok()
+}
+pub fn find_zugzwang_root(seed: u64, tries: u32) -> Option<Pos> {
+    let mut x = seed | 1;
+    (0..tries).find_map(|_| zugzwang_root_candidate(&mut x))
+}
+
 pub fn run_c11(ctx: &mut Ctx) {
     let t = ctx.tier;
     {
@@ -919,6 +1017,35 @@ pub fn run_c11(ctx: &mut Ctx) {
             v
         },
     );
+    {
+        let kmax: u64 = t.pick(40_000, 120_000);
+        run_prop(
+            ctx,
+            "roots_before_a_bounded_reciprocal_zugzwang",
+            || any::<u64>(),
+            t.pick(96, 6_000),
+            move |seed, st| {
+                let Some(p) = find_zugzwang_root(*seed, 6_000) else {
+                    st.label("no_zugzwang_root_found_in_6000_candidates");
+                    return Ok(());
+                };
+                let Ok(case) = make_case(&p, &[]) else { return Ok(()) };
+                st.sample(|| case_json(&p, &[]));
+                st.label("single_saving_move_into_reciprocal_zugzwang");
+                c11_case(&case, kmax, st)?;
+                st.nontrivial(fp(&p.fen()));
+                Ok(())
+            },
+            move |seed| {
+                let mut v = match find_zugzwang_root(*seed, 6_000) {
+                    Some(p) => case_json(&p, &[]),
+                    None => json!({"fen": null}),
+                };
+                v["kmax"] = json!(kmax);
+                v
+            },
+        );
+    }
     run_prop(
         ctx,
         "mate_only_by_knight_promotion",
